@@ -252,7 +252,7 @@ fn raw_conn(u: &mut Unstructured<'_>, f: Features) -> arbitrary::Result<vcommon:
     Ok(RawConn {
         calls,
         plan: chunk_plan(u)?,
-        end: if f.faults { u.int_in_range(0u8..=5)? } else { 0 },
+        end: if f.faults { u.int_in_range(0u8..=5)? } else { [0u8, 0, 0, 4][u.int_in_range(0usize..=3)?] },
         truncate_last: f.faults && u.ratio(1u8, 5u8)?,
         write_fail: if f.faults && u.ratio(1u8, 7u8)? { Some(u.int_in_range(0u8..=5)?) } else { None },
     })
